@@ -45,4 +45,27 @@ def toMesh (cfg : Cfg) (f : Fem V) : Mesh V :=
    f.nodalVars.map (fun v => ⟨v.name, v.width⟩), catRows (f.nodalVars.map (rowsFor cfg nids)) nids.length,
    f.elemVars.map (fun v => ⟨v.name, v.width⟩), catRows (f.elemVars.map (rowsFor cfg eids)) eids.length⟩
 
+/-! ### the writer's requirements as Boolean functions (the driver evaluates them on every case) -/
+/-- the variable's own ids are a permutation of `meshIds`, one row per id, rows as wide as the variable, ≥ 1 column -/
+def varOKB (meshIds : List Nat) (v : VarTab V) : Bool :=
+  v.ids.isPerm meshIds && v.rows.length == v.ids.length && v.rows.all (fun r => r.length == v.width) && decide (0 < v.width)
+def nodupB : List Nat → Bool
+  | [] => true
+  | a :: t => !t.contains a && nodupB t
+def femOKB (f : Fem V) : Bool :=
+  nodupB (f.nodes.map Prod.fst) && nodupB (elemIds f.blocks) &&
+  f.nodalVars.all (varOKB (f.nodes.map Prod.fst)) && f.elemVars.all (varOKB (elemIds f.blocks))
+
+/-! ### reader side: one id-keyed table per variable -/
+/-- `_read_associated_data`: the table of every variable, cut out of the rows read by cumulative column offsets
+    (`slice(cum_dim, cum_dim + dim)`; column 0 of the file row is the id) -/
+def tablesFrom (rows : List (Nat × List V)) : Nat → List Var → List (VarTab V)
+  | _, [] => []
+  | off, x :: xs =>
+    ⟨x.name, x.width, rows.map (·.1), rows.map fun r => (r.2.drop off).take x.width⟩ :: tablesFrom rows (off + x.width) xs
+def readTables (vars : List Var) (rows : List (Nat × List V)) : List (VarTab V) := tablesFrom rows 0 vars
+
+/-- a variable re-ordered to the id order `meshIds`: under every id the row the variable holds for that id -/
+def alignedTab (meshIds : List Nat) (v : VarTab V) : VarTab V := ⟨v.name, v.width, meshIds, rowsFor Cfg.fixed meshIds v⟩
+
 end Femio.C04
